@@ -21,18 +21,21 @@ ASSUMPTIONS = [
     "object lifetime (who closes the fd) is CPython refcounting: the harness only checks that handlers leave the list",
 ]
 MANIFEST = dict(
-    level_text=("Lean 4 theorems over the same tunnel model as C01: for every schedule, when the tunnel shuts down the "
-                "destination (application) socket through the end-of-stream path, everything the tunnel had read from "
-                "the other endpoint has been delivered (C02_eof_after_data), an EOF frame is queued only after the "
-                "wrapper's buffer is empty and reading has stopped and no DATA frame of the flow ever follows it "
-                "(C02_eof_frame_last), one direction's close leaves the other direction's invariant untouched "
-                "(half-close: the two directions are separate instances of the same invariant), a handler is dropped "
-                "only after both its socket and its channel were shut (C02_removed_only_when_shut). The model is "
-                "replayed against the real classes on every run with close-order scenarios; teardown, bounded work and "
-                "absence of stuck states are checked on the real code by the fair-drain oracle."),
-    level_note=("Trusted: as C01. Liveness (teardown within bounded work, no stuck state) is established on the real "
-                "code by the fair-drain oracle for the generated schedules, not by a theorem; see Props/C02.lean for "
-                "what is proved."),
+    level_text=("Lean 4 theorems over the same tunnel model as C01, for every reachable state of every schedule: no DATA frame "
+                "of a flow is queued behind its EOF frame (C02_eof_frame_last); an end sends EOF only when it has stopped "
+                "reading, its buffer is empty and it can never frame another byte (C02_eof_sender_done); once the receiving "
+                "end has processed the EOF and not yet shut the endpoint socket, no DATA is in flight and everything read "
+                "from the peer endpoint is what was delivered plus exactly what that end still buffers (C02_eof_after_data_up/"
+                "_down; a residual 'lost' tail is possible only after the sender was told to stop), so the shutdown that "
+                "follows comes after all data; the closed direction leaves the other direction's accounting intact "
+                "(C02_half_close); a handler with ok=False has shut its socket (C02_dead_handler_shut), a dropped handler "
+                "left no socket un-shut (C02_dropped_handler_shut), and - with no hypothesis on the schedule - ok=False "
+                "means all four shut flags set, buffers empty and the id unregistered, i.e. reusable (C02_finished_frees_id). "
+                "The model is replayed against the real classes on every run with close-order scenarios; teardown within "
+                "bounded work and absence of stuck states are checked on the real code by the fair-drain oracle."),
+    level_note=("Trusted: as C01. Liveness (teardown within bounded work, no stuck state under a fair schedule) is decided on the "
+                "real code by the fair-drain oracle for the generated schedules, not by a theorem. The 'lost' tail in "
+                "C02_eof_after_data is not yet proved empty before the receiver's own shutdown."),
     technique="Lean 4 proof (invariants over all schedules) + differential replay + fair-drain oracle on the real classes",
 )
 
